@@ -175,10 +175,10 @@ package jet
 
 //@ func (*lexer).run$1
 //@   props C02
-//@   requires StateReq(*l)
+//@   requires StateReq(l)
 //@   modifies *
 //@   nopanic
-//@   loop 0 invariant StateReq(*l) && IsStateFn((*l).state) && EntryOK((*l).state, *l)
+//@   loop 0 invariant StateReq(l) && IsStateFn(l.state) && EntryOK(l.state, l)
 
 //@ func lexText
 //@   refines field:lexer.state
